@@ -63,20 +63,17 @@ where
         }
         source
             .try_for_each_quad(|q| {
-                {
-                    let w = &mut self.write;
-                    let (tr, gn) = q.spog();
-                    write_triple(w, tr)?;
-                    match gn {
-                        None => w.write_all(b".\n"),
-                        Some(t) => {
-                            w.write_all(b" ")?;
-                            write_term(w, t)?;
-                            w.write_all(b".\n")
-                        }
+                let w = &mut self.write;
+                let (tr, gn) = q.spog();
+                write_triple(w, tr)?;
+                match gn {
+                    None => w.write_all(b".\n"),
+                    Some(t) => {
+                        w.write_all(b" ")?;
+                        write_term(w, t)?;
+                        w.write_all(b".\n")
                     }
                 }
-                .map_err(|e| io::Error::new(io::ErrorKind::Other, e))
             })
             .map(|()| self)
     }
